@@ -64,7 +64,11 @@ def family(tier, seed):
     if not quick:
         E.append(ent("mul_bytes", L.S_mul_bytes(2), [by, (by * 7 + 3) % 256, a], {"nbytes": 2, "free": 1, "via": "mul"},
                      WHAT_F.format("mul with a 16-bit variable scalar"), FN_MUL + ["EccChip::scalar_from_le_bytes"], alt=[[0, 0, a], [255, 255, a2]], timeout=tmo))
-        E.append(ent("msm_const2", L.S_det([(0, 2), (1, 3)]), [a, a2], {"c": 2, "c1": 3, "free": 1, "twice": 1}, WHAT_D.format("msm([2, 3], [P0, P1])"),
+        E.append(ent("mul_bytes", L.S_det([(0, 1)]), [by, (by * 7 + 3) % 256, a], {"nbytes": 2, "free": 1, "via": "mul", "twice": 1}, WHAT_D.format("mul with a 16-bit variable scalar"),
+                     FN_MUL + ["EccChip::scalar_from_le_bytes"], timeout=tmo))
+        E.append(ent("mul_bytes", L.S_mul_bytes(4), [by, (by * 7 + 3) % 256, 1, 0x80, a], {"nbytes": 4, "free": 1, "via": "mul"},
+                     WHAT_F.format("mul with a 32-bit variable scalar"), FN_MUL + ["EccChip::scalar_from_le_bytes"], timeout=tmo))
+        E.append(ent("msm_const2", L.S_det([(0, 3), (1, 4), (2, 5)]), [a, a2], {"c": 2, "c1": 3, "free": 1, "twice": 1}, WHAT_D.format("msm([2, 3], [P0, P1])"),
                      FN_MUL + ["EccChip::msm", "EccChip::add"], timeout=tmo))
     return E
 
@@ -83,6 +87,21 @@ def check(run):
     run.bounds.append(f"part M tier={t}: {len(ents)} ladder shapes of the native Edwards chip, k=11")
     run.translator_validation.append("edladder: every ladder shape's honest run (real witness generation) satisfies the encoded system AND the recurrence with the documented cells as intermediate points (vacuity twin of each obligation); forged assignments are replayed on the real MockProver")
     L.NONRES_USED.clear()
+    L.STATS.update(local_queries=0, local_proved=0, local_s=0.0)
     cengine.run_family(run, "edwards", ents, timeout=60 if t == "quick" else 600, only=getattr(run, "only", None), workers=6)
+    # obligations the deciding query left open (abstract models that the engine's 8 refinement rounds do not make
+    # exact): row-by-row search for a forged assignment, replayed on the real MockProver (can only find violations)
+    byid = {}
+    for en in ents:
+        byid.setdefault(f"edwards/{en['op']}[{cengine.pstr(en['params'])}]", en)
+    for ob in list(run.obs):
+        if ob.status == core.INCONCLUSIVE and ob.id in byid:
+            try:
+                if L.forge(run, ob, "edwards", byid[ob.id]):
+                    run.log(f"{ob.status:12s} {ob.id} (forged assignment found row by row) {ob.detail[:140]}")
+            except Exception as ex:  # noqa
+                run.log(f"  forge failed for {ob.id}: {ex!r}")
+    run.extra["edladder"] = dict(L.STATS)
+    run.log(f"edladder: row-local proofs {L.STATS['local_proved']}/{L.STATS['local_queries']} proved, {L.STATS['local_s']:.1f}s solver time")
     if L.NONRES_USED:
         L.nonresidue_obligation(run, L.NONRES_USED)
